@@ -658,12 +658,16 @@ class C01(Property):
         'popitem() removes some present key with all its values and returns it with its most recent value; the oracle '
         'does not prescribe which key (the model and the fix use the key of the most recently inserted pair)',
         'sortedvalues: the oracle accepts any order among values whose sort keys are equal; sorted() is stable like sorted()',
-        'FastIterOrderedMultiDict is outside the property statement; fromkeys and the view objects are modelled (fromkeys = the '
-        'constructor on (key, default) pairs; a view reads the current state through the public readers)',
+        'FastIterOrderedMultiDict is outside the property statement; fromkeys and the view objects are modelled as the code defines '
+        'them (fromkeys = the constructor on (key, default) pairs; a view reads the current state through the public readers) and '
+        'compared with the model; the ORACLE, which judges by the statement alone, demands only: fromkeys gives a consistent '
+        'dictionary holding one pair per listed key or one per distinct key; reading a view never raises and a view made earlier '
+        'shows what a view made now shows',
         'a mapping with __missing__ (Counter, defaultdict) is a mapping: == is true only when it HAS the same keys',
         'a dictionary that contains itself as a value: repr must not raise (what it prints for the inner occurrence is not prescribed)',
         'calls outside the domain of the statement (unhashable key, non-iterable argument, too many arguments): any exception, or '
-        'none, is accepted; the pairs must be unchanged. A malformed item inside an iterable of pairs: TypeError or ValueError',
+        'none, is accepted; the pairs must be unchanged. A malformed item inside an iterable of pairs: any exception after a prefix '
+        'was taken over, or the item is skipped and every well-formed pair is taken (the model: the exception, as the code does)',
         'an argument iterable that raises: the exception must propagate; how many of the items yielded before were '
         'taken over is not prescribed by the oracle (any prefix; the model/code: all of them for update / update_extend, '
         'none for addlist), but every reader must agree with that one list of pairs afterwards. Malformed items '
@@ -1536,6 +1540,10 @@ class C01(Property):
         d['vc'] = rd(lambda: [int(p in vk) for p in probes])
         d['vic'] = rd(lambda: [[int((p, v) in vi) for v in vforms] for p in probes])
         d['vvc'] = rd(lambda: [int(v in vv) for v in vforms])
+        # … and views made just now: the old ones must show the same (the statement does not define the views, but reads of
+        # one mapping may not disagree with one another: a view that lags behind the dictionary does)
+        d['vfresh'] = rd(lambda: [[cx.kid(k) for k in s.viewkeys()], [len(s.viewkeys()), len(s.viewvalues()), len(s.viewitems())],
+                                  [cx.vid(v) for v in s.viewvalues()], cx.kv(s.viewitems())])
         # the storage once more, AFTER everything above was scribbled on (ownership layer of the model: `OW`)
         d['ow'] = rd(lambda: sorted([cx.kid(k), [cx.vid(v) for v in vs]] for k, vs in s.todict(multi=True).items()))
         d['repr'] = rd(lambda: int(repr(s) == '%s([%s])' % (type(s).__name__, ', '.join(
@@ -1700,9 +1708,25 @@ class C01(Property):
                 ps = [tuple(p) for p in op[1][-1]]
                 if op[1][0] == 'p' and op[1][1] == 'y':
                     # a malformed item: some TypeError / ValueError (which one is not prescribed)
-                    exp_fn = lambda ret: None if ret in (['X', 'TypeError'], ['X', 'ValueError']) else \
-                        'a malformed item was answered with %r' % (ret,)
-                if name == 'new':
+                    # (or the item is skipped: the statement is silent about malformed items; then the pairs after it count too)
+                    exp_fn = lambda ret: None if (ret[0] == 'X' and ret[1] not in ('CaseTimeout', 'RecursionError')) \
+                        or ret == ['N'] else 'a malformed item was answered with %r' % (ret,)
+                accepted = exp_fn is not None and ret == ['N']
+                if accepted:
+                    # every well-formed pair was taken (with or without the one after the malformed item), then the
+                    # keyword arguments
+                    F = [tuple(p) for p in op[2]] if name in ('new', 'upd', 'ext') else []
+                    cands = []
+                    for qs in (ps + [(0, 0)], ps):
+                        c = (list(qs) if name == 'new' else L + qs if name == 'ext' else self._replace_by(L, qs))
+                        if name == 'ext':
+                            c = c + F
+                        else:
+                            for k, v in F:
+                                c = self._assign(c, k, v)
+                        cands.append(c)
+                    removed = True
+                elif name == 'new':
                     cands = [L]    # no object was constructed: `s` is still the old dictionary
                 elif name == 'ext':
                     cands = [L + ps[:j] for j in range(len(ps), -1, -1)]
@@ -1809,7 +1833,10 @@ class C01(Property):
                 # outside the domain of the statement: any exception (or none) is fine, the pairs must stay as they are
                 exp_fn = lambda ret: None if ret[0] in ('X', 'RA') else 'a call outside the domain returned %r' % (ret,)
             elif name == 'fk':
-                L = [(k, NONE_V if op[2] < 0 else op[2]) for k in op[1]]
+                # an alternative constructor the statement does not define: one pair per LISTED key (the code, the model) or
+                # one per DISTINCT key (dict.fromkeys) - the dictionary must be consistent with one of them
+                dv = NONE_V if op[2] < 0 else op[2]
+                cands = [[(k, dv) for k in op[1]], [(k, dv) for k in self._keys([(k, 0) for k in op[1]])]]
             elif name == 'swap':
                 L, T = T, L
             elif name == 'cp':
@@ -1913,11 +1940,15 @@ class C01(Property):
             'gld': [self._vals_of(L, k) if k in last else 'D' for k in range(NK)],
             'bool': int(bool(L)), 'repr': 1, 'cnt': True, 'eqself': [1, 0],
             'ow': sorted([k, self._vals_of(L, k)] for k in keys),
-            'vk': keys, 'vl': [len(keys)] * 3, 'vv': [last[k] for k in keys], 'vi': items,
-            'vc': [int(k in last) for k in range(NK)],
-            'vic': [[int(k in last and last[k] == v) for v in range(5)] for k in range(NK)],
-            'vvc': [int(v in last.values()) for v in range(5)],
         }
+        # the view objects are not defined by the statement (the model defines them as the code does: correspondence);
+        # what the statement does demand: their reads do not raise and an old view shows what a new one shows
+        for name in ('vk', 'vl', 'vv', 'vi', 'vc', 'vic', 'vvc', 'vfresh'):
+            if isinstance(d.get(name), dict):
+                return ('read:' + name, 'reading a view object raised %s' % d[name].get('!'))
+        if [d.get('vk'), d.get('vl'), d.get('vv'), d.get('vi')] != d.get('vfresh'):
+            return ('read:views', 'a view object made earlier shows %r, one made now shows %r' % (
+                [d.get('vk'), d.get('vl'), d.get('vv'), d.get('vi')], d.get('vfresh')))
         tkeys = self._keys(T)
         exp['t2'] = [len(tkeys), tkeys, [self._vals_of(T, k) for k in range(NK)],
                      [[k, self._vals_of(T, k)[-1]] for k in tkeys]]
